@@ -4,6 +4,6 @@
 EXTENDS PidAlloc
 VARIABLE sched
 HInit == Init /\ sched = <<>>
-HNext == (\E t \in Threads : PStep(t) /\ sched' = Append(sched, t)) /\ UNCHANGED origin
+HNext == (\E t \in Threads : PStep(t) /\ sched' = Append(sched, t)) /\ UNCHANGED <<origin, nset, epoch>>
 HSpec == HInit /\ [][HNext]_<<vars, sched>>
 =============================================================================
